@@ -100,6 +100,11 @@ type Exec struct {
 	InitGhost  map[string]string
 	oldNames   map[string]string
 	backings   map[string]int
+	alloc0     string
+	frameAllowed map[string][]string
+	frameAny   map[string]bool
+	frameOn    bool
+	frameFn    *ssa.Function
 	scanReader map[string]string // scanner ref -> reader ref
 	specAxiomsLoaded bool
 	selfFn     *ssa.Function
